@@ -763,3 +763,133 @@ func ManyOps(t *rapid.T) (*ref.V, []ref.Op) {
 	}
 	return doc, ops
 }
+
+// Alias draws a sequence built around one duplication: (optionally) an
+// operation that walks into a nested container S, then a copy or move of S to
+// a new place D, then 1-4 edits two or more levels below S or D, then tests of
+// both. It is the history on which a duplicate that shares structure with its
+// source shows: an edit deep in one side appears on the other. Every
+// operation applies to the state the earlier ones leave (tracked with the
+// reference evaluator); o must not carry EnsurePathExistsOnAdd.
+func (g *OpGen) Alias(t *rapid.T, doc *ref.V, o ref.Opts) []ref.Op {
+	st := &ref.State{Root: doc.Clone()}
+	var ops []ref.Op
+	do := func(op ref.Op) bool {
+		trial := &ref.State{Root: st.Root.Clone(), Lo: st.Lo, Hi: st.Hi}
+		if r := ref.Step(trial, op, o); r.Cause != ref.COK {
+			return false
+		}
+		st = trial
+		ops = append(ops, op)
+		return true
+	}
+	deepBelow := func(root *ref.V, pre string) []Loc { // locations at least two levels below pre
+		var out []Loc
+		for _, l := range Locations(root) {
+			if strings.HasPrefix(l.Ptr, pre+"/") && strings.Count(l.Ptr[len(pre):], "/") >= 2 {
+				out = append(out, l)
+			}
+		}
+		return out
+	}
+	// a source with nested content
+	var srcs []Loc
+	for _, l := range Locations(st.Root) {
+		if l.V.IsContainer() && len(deepBelow(st.Root, l.Ptr)) > 0 {
+			srcs = append(srcs, l)
+		}
+	}
+	src := ""
+	if len(srcs) == 0 || OneIn(t, 4, "al.fresh") {
+		v := ref.ObjOf("b", ref.ObjOf("x", ref.Num("1"), "y", ref.Arr(ref.Num("1"), ref.ObjOf("z", ref.Num("2")))), "c", ref.Arr(ref.Arr(ref.Num("1"), ref.Num("2")), ref.Arr(ref.Num("3"))))
+		switch st.Root.K {
+		case ref.KObj:
+			src = "/al"
+		case ref.KArr:
+			src = "/0"
+		default:
+			return nil
+		}
+		if !do(ref.Op{Op: "add", Path: src, Value: v}) {
+			return nil
+		}
+	} else {
+		src = rapid.SampledFrom(srcs).Draw(t, "al.src").Ptr
+	}
+	// walk into the source first (so that an implementation has it decoded)
+	if !OneIn(t, 3, "al.notouch") {
+		ls := deepBelow(st.Root, src)
+		l := ls[Uniform(t, 0, len(ls)-1, "al.touch")]
+		if rapid.Bool().Draw(t, "al.touchtest") {
+			do(ref.Op{Op: "test", Path: l.Ptr, Value: l.V.Clone()})
+		} else {
+			do(ref.Op{Op: "replace", Path: l.Ptr, Value: g.Cfg.Scalar().Draw(t, "al.tv")})
+		}
+	}
+	// duplicate (or move) it
+	dst := ""
+	switch st.Root.K {
+	case ref.KObj:
+		dst = "/dup"
+	case ref.KArr:
+		dst = "/-"
+	}
+	kind := "copy"
+	if OneIn(t, 5, "al.move") {
+		kind = "move"
+	}
+	if !do(ref.Op{Op: kind, From: src, Path: dst}) {
+		return ops
+	}
+	if dst == "/-" {
+		dst = fmt.Sprintf("/%d", len(st.Root.Arr)-1)
+	}
+	if kind == "move" {
+		// a second duplicate of what was moved, so that two places hold the value again
+		if st.Root.K == ref.KObj {
+			do(ref.Op{Op: "copy", From: dst, Path: "/dup2"})
+			src = "/dup2"
+		} else {
+			do(ref.Op{Op: "copy", From: dst, Path: "/-"})
+			src = fmt.Sprintf("/%d", len(st.Root.Arr)-1)
+		}
+	}
+	// edits deep inside either side
+	n := Uniform(t, 1, 4, "al.nedits")
+	for i := 0; i < n; i++ {
+		side := src
+		if rapid.Bool().Draw(t, "al.side") {
+			side = dst
+		}
+		ls := deepBelow(st.Root, side)
+		if len(ls) == 0 {
+			break
+		}
+		l := ls[Uniform(t, 0, len(ls)-1, "al.el")]
+		switch Uniform(t, 0, 3, "al.ek") {
+		case 0:
+			do(ref.Op{Op: "remove", Path: l.Ptr})
+		case 1:
+			do(ref.Op{Op: "replace", Path: l.Ptr, Value: g.Cfg.Value(1).Draw(t, "al.rv")})
+		case 2:
+			if l.V.K == ref.KObj {
+				do(ref.Op{Op: "add", Path: l.Ptr + "/" + ref.EncodeTok(rapid.SampledFrom(g.Cfg.Keys).Draw(t, "al.ak")), Value: g.Cfg.Scalar().Draw(t, "al.av")})
+			} else if l.V.K == ref.KArr {
+				do(ref.Op{Op: "add", Path: l.Ptr + "/-", Value: g.Cfg.Scalar().Draw(t, "al.av")})
+			} else {
+				do(ref.Op{Op: "add", Path: l.Ptr, Value: g.Cfg.Scalar().Draw(t, "al.av")})
+			}
+		default:
+			ls2 := deepBelow(st.Root, side)
+			m := ls2[Uniform(t, 0, len(ls2)-1, "al.ml")]
+			do(ref.Op{Op: "move", From: l.Ptr, Path: m.Ptr})
+		}
+	}
+	// both sides as they must be now
+	for _, p := range []string{src, dst} {
+		if v, r := ref.Lookup(st.Root, p, o); r.Cause == ref.COK && rapid.Bool().Draw(t, "al.final") {
+			do(ref.Op{Op: "test", Path: p, Value: v.Clone()})
+		}
+	}
+	return ops
+}
